@@ -2163,7 +2163,14 @@ func scriptSizesAreTestedBeforeMake(c *core.Ctx) {
 		}
 		return false
 	}
-	for _, fn := range repoFns(p, "builtins", "object") {
+	var scope []*ssa.Function
+	for _, fn := range repoFns(p) {
+		rel := core.RelPkg(fn.Pkg.Pkg)
+		if rel == "builtins" || rel == "object" || strings.HasPrefix(rel, "modules/") {
+			scope = append(scope, fn)
+		}
+	}
+	for _, fn := range scope {
 		k := 0
 		for _, b := range fn.Blocks {
 			for _, in := range b.Instrs {
@@ -2491,7 +2498,28 @@ func mountPointsAreNormalisedWhenTheyAreRegistered(c *core.Ctx) {
 					}
 				}
 			}
+			// a mount without a source has nothing to serve its mount point with
+			sourceTested := false
+			si := fieldIdxByName(mountT, "Source")
+			for _, b2 := range fn.Blocks {
+				for _, in2 := range b2.Instrs {
+					bo, ok := in2.(*ssa.BinOp)
+					if !ok || (bo.Op != token.EQL && bo.Op != token.NEQ) {
+						continue
+					}
+					for _, side := range []ssa.Value{bo.X, bo.Y} {
+						if u, ok := side.(*ssa.UnOp); ok && u.Op == token.MUL {
+							if fa, ok := u.X.(*ssa.FieldAddr); ok && fa.Field == si && core.NamedOf(fa.X.Type()) == mountT {
+								sourceTested = true
+							}
+						}
+					}
+				}
+			}
 			bad := ""
+			if cleaned && own && !sourceTested {
+				bad = "a mount whose Source is nil is entered like any other: the first operation under its mount point dereferences nil"
+			}
 			if !cleaned {
 				bad = "the key is entered as the host wrote it, not cleaned (a mount at \"/a/\" does not serve \"/a\")"
 			} else if !own {
@@ -2837,4 +2865,460 @@ func mayReturnErrorObjects(p *core.Program) map[*ssa.Function]bool {
 	}
 	mayReturnErrorObjectsCache[p] = may
 	return may
+}
+
+// ---------------------------------------------------------------------------
+// convertedErrorsAreValues: a Go error that is data (the value of a struct
+// field, an element, a global) becomes an error object in the script.  That
+// object is a value, not a failure: the converter that makes it clears the
+// raised flag that NewError sets.  With the flag set, reading the field is
+// taken for a failed attribute access, and the script cannot look at the error
+// at all (o.Err raises instead of yielding the value).
+func convertedErrorsAreValues(c *core.Ctx) {
+	p := c.P
+	_, from := converterMethods(p)
+	fns := append([]*ssa.Function{}, from...)
+	for _, fn := range repoFns(p, "object") {
+		if fn.Parent() != nil || fn.Signature.Recv() != nil || fn.Signature.Params().Len() != 1 || fn.Signature.Results().Len() != 1 {
+			continue
+		}
+		if it, ok := fn.Signature.Params().At(0).Type().Underlying().(*types.Interface); !ok || it.NumMethods() != 0 {
+			continue
+		}
+		if core.IsNamed(fn.Signature.Results().At(0).Type(), pkgPath("object"), "Object") {
+			fns = append(fns, fn)
+		}
+	}
+	n := 0
+	for _, fn := range fns {
+		k := 0
+		for _, b := range fn.Blocks {
+			for _, in := range b.Instrs {
+				call, ok := in.(*ssa.Call)
+				if !ok {
+					continue
+				}
+				cal := call.Call.StaticCallee()
+				if cal == nil || cal.Name() != "NewError" || cal.Pkg == nil || core.RelPkg(cal.Pkg.Pkg) != "object" {
+					continue
+				}
+				// the argument is the Go value that is being converted (not an error of the conversion itself)
+				fromInput := false
+				for _, a := range call.Call.Args {
+					if core.DependsOn(a, func(w ssa.Value) bool {
+						for _, pa := range fn.Params {
+							if w == ssa.Value(pa) && pa != fn.Params[0] || (fn.Signature.Recv() == nil && w == ssa.Value(pa)) {
+								return true
+							}
+						}
+						return false
+					}) {
+						fromInput = true
+					}
+				}
+				if !fromInput {
+					continue
+				}
+				n++
+				k++
+				cleared := false
+				if call.Referrers() != nil {
+					for _, r := range *call.Referrers() {
+						if c2, ok := r.(*ssa.Call); ok {
+							if m := c2.Call.StaticCallee(); m != nil && m.Name() == "WithRaised" && len(c2.Call.Args) == 2 {
+								if kf, ok := c2.Call.Args[1].(*ssa.Const); ok && kf.Value != nil && kf.Value.String() == "false" {
+									cleared = true
+								}
+							}
+						}
+					}
+				}
+				c.Check(cleared, core.SSAName(fn)+"|error-value-not-raised|"+sprintf("%d", k), p.Pos(call.Pos()),
+					core.SSAName(fn)+" turns a Go error that is data into an error object"+ife(cleared, " and clears its raised flag: it is a value", " and leaves its raised flag set: where the object comes out of an attribute access it is taken for the failure of that access, and the script cannot read an error-typed field (o.Err raises)"))
+			}
+		}
+	}
+	if n == 0 {
+		core.Undecidedf("no converter turns a Go error into an error object")
+	}
+	c.Stat("error_value_conversions", n)
+}
+
+// ---------------------------------------------------------------------------
+// entriesMadeOnTheWayAreWithdrawnWithTheirCause: the registry of Go types and
+// the memo of converters are filled recursively: while the entry for a type is
+// being built, entries for the types it is made of are made and completed.
+// When the outer entry cannot be completed it is taken out again; the entries
+// made on the way refer to it (a field of the unfinished type) and are taken
+// out with it.  For that, every function that enters a type into one of these
+// tables while it can be on such a recursion also notes the type in a
+// package-level list, and a function deletes the listed types.  Left in, the
+// inner entries make the outcome of a later evaluation depend on an earlier
+// one: `b.N` for a *PB whose field type PA has a chan field is refused in a
+// fresh process, and accepted once an evaluation that offered a *PA has
+// failed.
+func entriesMadeOnTheWayAreWithdrawnWithTheirCause(c *core.Ctx) {
+	p := c.P
+	cg := p.CallGraph()
+	isReflectType := func(t types.Type) bool { return core.IsNamed(t, "reflect", "Type") }
+	fns := repoFns(p, "object")
+	// memo tables: package-level maps keyed by reflect.Type
+	globalMapOf := func(v ssa.Value) *ssa.Global {
+		for _, o := range core.Origins(v) {
+			if u, ok := o.(*ssa.UnOp); ok && u.Op == token.MUL {
+				if g, ok := u.X.(*ssa.Global); ok {
+					if mt, ok := g.Type().(*types.Pointer).Elem().Underlying().(*types.Map); ok && isReflectType(mt.Key()) {
+						return g
+					}
+				}
+			}
+		}
+		return nil
+	}
+	// a function that deletes from the memo inside a range over a package-level slice
+	withdraws := map[*ssa.Global]bool{}
+	for _, fn := range fns {
+		rangesGlobalSlice := false
+		for _, b := range fn.Blocks {
+			for _, in := range b.Instrs {
+				// range over a slice is lowered to index loops: a load of a global-rooted slice that is indexed
+				if ia, ok := in.(*ssa.IndexAddr); ok {
+					for _, o := range core.Origins(ia.X) {
+						if u, ok := o.(*ssa.UnOp); ok && u.Op == token.MUL {
+							if root := addrRoot(u.X); root != nil {
+								if _, isG := root.(*ssa.Global); isG {
+									rangesGlobalSlice = true
+								}
+							}
+						}
+					}
+				}
+			}
+		}
+		if !rangesGlobalSlice {
+			continue
+		}
+		for _, b := range fn.Blocks {
+			for _, in := range b.Instrs {
+				if ci, ok := in.(ssa.CallInstruction); ok {
+					if bi, ok := ci.Common().Value.(*ssa.Builtin); ok && bi.Name() == "delete" {
+						if g := globalMapOf(ci.Common().Args[0]); g != nil {
+							withdraws[g] = true
+						}
+					}
+				}
+			}
+		}
+	}
+	n := 0
+	for _, fn := range fns {
+		if cg.Nodes[fn] == nil || !reachesFunc(cg, fn, fn, 6) {
+			continue
+		}
+		k := 0
+		for _, b := range fn.Blocks {
+			for _, in := range b.Instrs {
+				mu, ok := in.(*ssa.MapUpdate)
+				if !ok {
+					continue
+				}
+				g := globalMapOf(mu.Map)
+				if g == nil || !isReflectType(mu.Key.Type()) {
+					continue
+				}
+				// tables of types in progress (entries deleted again by the same function) are not memos
+				if _, isInt := g.Type().(*types.Pointer).Elem().Underlying().(*types.Map).Elem().Underlying().(*types.Basic); isInt {
+					continue
+				}
+				n++
+				k++
+				noted := false
+				for _, b2 := range fn.Blocks {
+					for _, in2 := range b2.Instrs {
+						call, ok := in2.(*ssa.Call)
+						if !ok {
+							continue
+						}
+						bi, ok := call.Call.Value.(*ssa.Builtin)
+						if !ok || bi.Name() != "append" || len(call.Call.Args) < 2 {
+							continue
+						}
+						fromGlobal := false
+						for _, o := range core.Origins(call.Call.Args[0]) {
+							if u, ok := o.(*ssa.UnOp); ok && u.Op == token.MUL {
+								if _, isG := addrRoot(u.X).(*ssa.Global); isG {
+									fromGlobal = true
+								}
+							}
+						}
+						if !fromGlobal {
+							continue
+						}
+						if core.DependsOn(call.Call.Args[1], func(w ssa.Value) bool { return w == mu.Key }) {
+							noted = true
+						}
+						// append(list, key): the key sits in the slot of a variadic argument slice
+						for _, o := range core.Origins(call.Call.Args[1]) {
+							if sl, ok := o.(*ssa.Slice); ok {
+								if al, ok := sl.X.(*ssa.Alloc); ok && al.Referrers() != nil {
+									for _, r := range *al.Referrers() {
+										if ia, ok := r.(*ssa.IndexAddr); ok && ia.Referrers() != nil {
+											for _, r2 := range *ia.Referrers() {
+												if st, ok := r2.(*ssa.Store); ok && (st.Val == mu.Key || core.SameStorage(st.Val, mu.Key)) {
+													noted = true
+												}
+											}
+										}
+									}
+								}
+							}
+						}
+					}
+				}
+				ok2 := noted && withdraws[g]
+				c.Check(ok2, core.SSAName(fn)+"|"+g.Name()+"|entry-noted-for-withdrawal|"+sprintf("%d", k), p.Pos(mu.Pos()),
+					fn.Name()+" enters a type into "+g.Name()+" while the entry of another type may be in progress"+ife(ok2, "; it notes the type in a package-level list, and the listed types are deleted when the outermost entry fails", ife(noted, "; it notes the type, but nothing deletes the noted types from "+g.Name(), "; it does not note the type anywhere: when the outer entry fails, this one stays, built on a type that was never completed, and a later evaluation that offers the inner type is accepted although a fresh process refuses it")))
+			}
+		}
+	}
+	if n < 2 {
+		core.Undecidedf("only %d recursive functions enter a type into a package-level table keyed by reflect.Type", n)
+	}
+	c.Stat("recursive_memo_entries", n)
+}
+
+// ---------------------------------------------------------------------------
+// importerFailuresAreNotTakenForAbsence: `from a import b` first asks for the
+// module a/b and, when there is none, takes b to be an attribute of a.  "There
+// is none" and "it is there and does not compile" are different answers of an
+// importer: the local importer marks the second kind (it wraps what parsing
+// and compiling return in an error type of its own), and the VM turns an
+// importer's error into "module unavailable" only after it has looked for that
+// mark.  Without it, a syntax error in a/b.risor is swallowed and the
+// attribute a.b is bound instead.
+func importerFailuresAreNotTakenForAbsence(c *core.Ctx) {
+	p := c.P
+	// (a) the importer: errors of the front end are wrapped
+	n := 0
+	frontEnd := func(f *ssa.Function) bool {
+		found := false
+		seen := map[*ssa.Function]bool{}
+		var walk func(f *ssa.Function, d int)
+		walk = func(f *ssa.Function, d int) {
+			if f == nil || seen[f] || f.Blocks == nil || d > 2 {
+				return
+			}
+			seen[f] = true
+			for _, b := range f.Blocks {
+				for _, in := range b.Instrs {
+					if ci, ok := in.(ssa.CallInstruction); ok {
+						if cal := ci.Common().StaticCallee(); cal != nil && cal.Pkg != nil {
+							rel := core.RelPkg(cal.Pkg.Pkg)
+							if (rel == "parser" && cal.Name() == "Parse") || (rel == "compiler" && cal.Name() == "Compile") {
+								found = true
+							}
+							if core.RepoFunc(cal) {
+								walk(cal, d+1)
+							}
+						}
+					}
+				}
+			}
+		}
+		walk(f, 0)
+		return found
+	}
+	for _, fn := range repoFns(p, "importer") {
+		if fn.Name() != "Import" || fn.Signature.Recv() == nil {
+			continue
+		}
+		k := 0
+		for _, b := range fn.Blocks {
+			ret, ok := b.Instrs[len(b.Instrs)-1].(*ssa.Return)
+			if !ok || len(ret.Results) < 2 {
+				continue
+			}
+			for _, o := range originsThroughInterfaces(spilledResult(b, ret.Results[len(ret.Results)-1])) {
+				ex, ok := o.(*ssa.Extract)
+				if !ok {
+					continue
+				}
+				call, ok := ex.Tuple.(*ssa.Call)
+				if !ok {
+					continue
+				}
+				cal := call.Call.StaticCallee()
+				if cal == nil || !frontEnd(cal) {
+					continue
+				}
+				n++
+				k++
+				c.Check(false, core.SSAName(fn)+"|"+cal.Name()+"|front-end-error-marked|"+sprintf("%d", k), p.Pos(ret.Pos()),
+					fn.Name()+" returns the error of "+cal.Name()+" (parsing and compiling the module it has found) as it is: the VM cannot tell it from \"no such module\", and `from a import b` with a syntax error in a/b.risor binds the attribute a.b instead of failing")
+			}
+		}
+		if k == 0 {
+			n++
+			c.Pass(core.SSAName(fn)+"|front-end-errors-marked", p.Pos(fn.Pos()), fn.Name()+" returns no error of the parser or the compiler unwrapped")
+		}
+	}
+	// (b) the VM: an importer's error becomes "unavailable" only behind errors.As
+	for _, fn := range repoFns(p, "vm") {
+		for _, b := range fn.Blocks {
+			for _, in := range b.Instrs {
+				call, ok := in.(*ssa.Call)
+				if !ok || !call.Call.IsInvoke() || call.Call.Method.Name() != "Import" {
+					continue
+				}
+				var errv ssa.Value
+				if call.Referrers() != nil {
+					for _, r := range *call.Referrers() {
+						if ex, ok := r.(*ssa.Extract); ok && isErrorType(ex.Type()) {
+							errv = ex
+						}
+					}
+				}
+				if errv == nil || errv.Referrers() == nil {
+					continue
+				}
+				// where the error is stored into a struct of the VM's own (the unavailable-verdict)
+				for _, r := range *errv.Referrers() {
+					st, ok := r.(*ssa.Store)
+					if !ok {
+						continue
+					}
+					fa, ok := st.Addr.(*ssa.FieldAddr)
+					if !ok {
+						continue
+					}
+					nt := core.NamedOf(fa.X.Type())
+					if nt == nil || nt.Obj().Pkg() == nil || core.RelPkg(nt.Obj().Pkg()) != "vm" {
+						continue
+					}
+					n++
+					looked := false
+					for _, b2 := range fn.Blocks {
+						for _, in2 := range b2.Instrs {
+							c2, ok := in2.(*ssa.Call)
+							if !ok {
+								continue
+							}
+							cal := c2.Call.StaticCallee()
+							if cal == nil || cal.Name() != "As" || cal.Pkg == nil || cal.Pkg.Pkg.Path() != "errors" || len(c2.Call.Args) != 2 || c2.Call.Args[0] != errv {
+								continue
+							}
+							if c2.Referrers() == nil {
+								continue
+							}
+							for _, r2 := range *c2.Referrers() {
+								if iff, ok := r2.(*ssa.If); ok {
+									s := iff.Block().Succs[1]
+									if s == st.Block() || s.Dominates(st.Block()) {
+										looked = true
+									}
+								}
+							}
+						}
+					}
+					c.Check(looked, core.SSAName(fn)+"|"+nt.Obj().Name()+"|only-after-looking-for-the-importers-mark", p.Pos(st.Pos()),
+						fn.Name()+" wraps the importer's error in a "+nt.Obj().Name()+ife(looked, " after errors.As has found no error type in it that the importer marks failures with", " whatever it is: a module that was found and does not compile is taken for a module that is not there"))
+				}
+			}
+		}
+	}
+	if n < 2 {
+		core.Undecidedf("importer Import methods / the VM's use of them not found")
+	}
+}
+
+// ---------------------------------------------------------------------------
+// aConfigurationEditsOnlyModulesItOwns: removing or replacing a member of a
+// module for one configuration is an edit of that module object.  The object
+// may be shared with other configurations (a host hands the same module, or
+// the globals of one Config, to several): the functions of package risor that
+// call Module.Override do so on a module that comes out of a function of the
+// Config which copies the module (calls Module.Copy) before it hands it out.
+// Edited in place, WithoutGlobal("os.exit") in one configuration removes
+// os.exit from every configuration that shares the module.
+func aConfigurationEditsOnlyModulesItOwns(c *core.Ctx) {
+	p := c.P
+	op := p.Pkg("object")
+	modT := core.MustType(op, "Module")
+	fns := repoFns(p, ".")
+	// functions that copy a module
+	copies := map[*ssa.Function]bool{}
+	for _, fn := range fns {
+		for _, b := range fn.Blocks {
+			for _, in := range b.Instrs {
+				if call, ok := in.(*ssa.Call); ok {
+					if cal := call.Call.StaticCallee(); cal != nil && cal.Name() == "Copy" && cal.Signature.Recv() != nil && core.NamedOf(cal.Signature.Recv().Type()) == modT {
+						copies[fn] = true
+					}
+				}
+			}
+		}
+	}
+	// ... and the functions that hand out what such a function returns
+	for changed := true; changed; {
+		changed = false
+		for _, fn := range fns {
+			if copies[fn] {
+				continue
+			}
+			for _, b := range fn.Blocks {
+				for _, in := range b.Instrs {
+					if call, ok := in.(*ssa.Call); ok {
+						if cal := call.Call.StaticCallee(); cal != nil && copies[cal] {
+							copies[fn] = true
+							changed = true
+						}
+					}
+				}
+			}
+		}
+	}
+	n := 0
+	for _, fn := range fns {
+		k := 0
+		for _, b := range fn.Blocks {
+			for _, in := range b.Instrs {
+				call, ok := in.(*ssa.Call)
+				if !ok {
+					continue
+				}
+				cal := call.Call.StaticCallee()
+				if cal == nil || cal.Name() != "Override" || cal.Signature.Recv() == nil || core.NamedOf(cal.Signature.Recv().Type()) != modT {
+					continue
+				}
+				n++
+				k++
+				owned := false
+				for _, o := range core.Origins(call.Call.Args[0]) {
+					var src *ssa.Call
+					if ex, ok := o.(*ssa.Extract); ok {
+						src, _ = ex.Tuple.(*ssa.Call)
+					} else {
+						src, _ = o.(*ssa.Call)
+					}
+					if src == nil {
+						owned = false
+						break
+					}
+					sc := src.Call.StaticCallee()
+					if sc != nil && (copies[sc] || (sc.Name() == "Copy" && sc.Signature.Recv() != nil && core.NamedOf(sc.Signature.Recv().Type()) == modT)) {
+						owned = true
+					} else {
+						owned = false
+						break
+					}
+				}
+				c.Check(owned, core.SSAName(fn)+"|Override|on-a-module-the-configuration-owns|"+sprintf("%d", k), p.Pos(call.Pos()),
+					fn.Name()+" edits a module with Override"+ife(owned, "; the module is a copy that the configuration made for itself", "; the module is the object that the globals hold, which other configurations may hold as well: what is removed or replaced for this configuration is removed or replaced for them (WithGlobals(cfg1.Globals()) + WithoutGlobal(\"os.exit\") takes os.exit away from cfg1)"))
+			}
+		}
+	}
+	if n == 0 {
+		core.Undecidedf("package risor does not call Module.Override")
+	}
+	c.Stat("module_edits", n)
 }
